@@ -57,7 +57,7 @@ def protein_id(rng, n_base=6, decoy_share=0.4, markers_inside=True):
     if r < decoy_share:
         d = rng.choice(["REV__", "REV__", "rev_"])
     elif r < decoy_share + 0.08:
-        d = rng.choice(["CON__", "OBSOLETE__", "OBSOLETE__REV__", "CON__REV__"])
+        d = rng.choice(["CON__", "OBSOLETE__", "OBSOLETE__REV__", "CON__REV__", "REV__CON__", "OBSOLETE__CON__"])
     else:
         d = ""
     if markers_inside and rng.random() < 0.05:
